@@ -215,7 +215,8 @@ def check_C07(tier, seed):
         for s, items in plan.items():
             for bounds, opn in items:
                 st, sc = scripts_for(vlib.family(s), bounds, opn)
-                ws.append(Workload(s, sc, list(N4), origin=st["instance"]))
+                # (B) runs with multi-byte UTF-8 names (driver flag u8: tokens are translated both ways)
+                ws.append(Workload(s, sc, list(N4), flags={"u8": True} if opn != N4 else None, origin=st["instance"]))
         # (R) random long histories of the specification (tlc -simulate), larger forests
         nr, depth = (30, 30) if tier == "quick" else (150, 50)
         rcache = {}
@@ -226,7 +227,8 @@ def check_C07(tier, seed):
                 mc_stats.append(rcache[fam][0])
             st, sc = rcache[fam]
             r = random.Random(seed * 7919 + vlib.ALL.index(s))
-            ws.append(Workload(s, r.sample(sc, min(nr, len(sc))), ["a", "b", "c", "", "x;y"], tag="r", origin=st["instance"]))
+            ws.append(Workload(s, r.sample(sc, min(nr, len(sc))), ["a", "b", "c", "", "x;y"], tag="r", origin=st["instance"],
+                               flags={"u8": True} if vlib.ALL.index(s) % 2 == 0 else None))
         return ws
 
     return history_check(
@@ -517,7 +519,7 @@ def check_C10(tier, seed):
             # whole sessions: many calls on ONE connection, closing only at chosen prefixes and at the end
             # (a reopen after every call would hide state that a long-lived connection accumulates)
             both = [list(x) + [{"op": "reopen"}] for x in r.sample(sc + sc2, min(len(sc + sc2), n1))]
-            ws.append(Workload(s, both, libcheck.NAMES4 + ["d"], mode="disk", tag="e", origin=st["instance"]))
+            ws.append(Workload(s, both, libcheck.NAMES4 + ["d"], mode="disk", tag="e", origin=st["instance"], flags={"u8": True}))
         # (R) random long histories with a reopen at two seed-chosen prefixes and at the end
         nr, rdepth = (25, 40) if tier == "quick" else (150, 60)
         rcache = {}
@@ -536,7 +538,8 @@ def check_C10(tier, seed):
                 for pos in sorted(r.sample(range(14, len(x)), 2), reverse=True):
                     x.insert(pos, {"op": "reopen"})
                 picked.append(x + [{"op": "reopen"}])
-            ws.append(Workload(s, picked, ["a", "b", "c", "d"], mode="disk", tag="r", origin=st["instance"]))
+            ws.append(Workload(s, picked, ["a", "b", "c", "d"], mode="disk", tag="r", origin=st["instance"],
+                               flags={"u8": True} if vlib.ALL.index(s) % 2 == 1 else None))
         return ws
 
     return history_check(
@@ -561,9 +564,9 @@ def check_C11(tier, seed):
                                            mem_bounds=(3, 5, 13) if tier == "quick" else (3, 6, 14))
             r = random.Random(seed * 31 + vlib.ALL.index(s))
             n1, n2 = (250, 250) if tier == "quick" else (len(sc), len(sc2))
-            ws.append(Workload(s, sc if len(sc) <= n1 else r.sample(sc, n1), libcheck.NAMES4, flags={"raw": True}, origin=st["instance"],
+            ws.append(Workload(s, sc if len(sc) <= n1 else r.sample(sc, n1), libcheck.NAMES4, flags={"raw": True, "u8": True}, origin=st["instance"],
                                also=vlib.store_also(s)))
-            ws.append(Workload(s, sc2 if len(sc2) <= n2 else r.sample(sc2, n2), ["a", "d"], flags={"raw": True}, origin=st2["instance"],
+            ws.append(Workload(s, sc2 if len(sc2) <= n2 else r.sample(sc2, n2), ["a", "d"], flags={"raw": True, "u8": True}, origin=st2["instance"],
                                also=vlib.store_also(s)))
         # the 1.x storage-layer model itself: the three redundant encodings agree after every call, refinement into
         # Library, atomicity under Fail(k) (the 2.x model is checked by C09's run)
